@@ -19,8 +19,8 @@ TEXT = {
  'C07': ('Kani lock-step simulation: from ANY pair of (real iterator-encoder state, reference Transport-v1 encoder state) in the simulation relation, one next() emits the same byte and stays in the relation => identical output for payloads of every length; buffer encoder on all payloads <= 4/5 bytes into several capacities. llsym: both encoders vs the reference encoder and 21 capacities.', 'simulation relation in kani/src/encstep.rs; E2 bounded by payload length'),
  'C08': ('Kani: the start-sequence matcher equals the longest-prefix matcher (by definition, not a table) from ANY search state => noise of any length, ending in any partial start sequence. llsym: symbolic noise + frame, cut-off frame + frame, from five decoder histories.', 'INV for the search state; E2 bounded by noise length'),
  'C09': ('llsym: lock-step comparison of complete::parse and the streaming parser (events reassembled) on the same symbolic inputs: same content, error iff error with the same kind, list protocol n/n/end.', 'bounded by input length'),
- 'C10': ('not yet', ''),
- 'C11': ('Kani: a would-block / other error / end of input arriving in ANY decoder phase (arbitrary INV state): would-block leaves the decoder untouched and reports 0; errors and EOF report exactly the bytes since the last boundary and leave a fresh decoder; next() is None iff nothing pending and stays None.', 'INV; embedded-hal and slice byte sources'),
+ 'C10': ('llsym: SmlReader over slice / iterator / io::Read x default / ArrayBuf<512> / Vec buffers on streams of generated files framed by the reference encoder with symbolic inter-frame noise and a symbolic per-call choice of target type (DecodedBytes, File, Parser) and read vs next: every result equals the hand composition of Decoder + complete::parse / Parser::new; None exactly at the end.', 'bounded by number of files (<=2), noise bytes (<=2 per gap) and symbolic choices (<=3)'),
+ 'C11': ('llsym: SmlReader over a fault-injecting io::Read whose first F read() calls follow a SYMBOLIC script over {byte, WouldBlock, Interrupted, Other, end-of-input} must report exactly what a hand-driven decoder reports with faults surfacing as documented. Kani: a would-block / other error / end of input arriving in ANY decoder phase (arbitrary INV state): would-block leaves the decoder untouched and reports 0; errors and EOF report exactly the bytes since the last boundary and leave a fresh decoder; next() is None iff nothing pending and stays None.', 'INV; embedded-hal and slice byte sources'),
  'C12': ('Kani differential UNIT harnesses: TLF parser on ALL byte strings of length <= 12 vs the SML rule in 64-bit arithmetic; all eight integer parsers, bool and octet strings vs big-endian two\'s-complement references.', 'private leaf parsers reached through verif-hooks accessors'),
  'C13': ('llsym: on every explored parser path three further next() calls after the first error/None must return None and the item count is <= len+1.', 'bounded by input length'),
  'C14': ('Kani: after every rejecting error, reset() and finalize() the state equals the constructor state; from Done with arbitrary stale fields the next byte behaves as on a new decoder; the checksum register is dead in the search state. llsym: concatenation at six kinds of boundary vs a fresh decoder on symbolic continuations.', 'INV; determinism of push_byte'),
@@ -39,7 +39,8 @@ TECH = {
  'C07': 'Kani/CBMC lock-step simulation lemma + llsym vs reference encoder',
  'C08': 'Kani/CBMC matcher lemma + llsym symbolic noise',
  'C09': 'llsym (z3) lock-step comparison of the two parsers',
- 'C11': 'Kani/CBMC one-step fault lemmas from arbitrary decoder state',
+ 'C10': 'llsym (z3) end-to-end comparison with hand composition',
+ 'C11': 'Kani/CBMC one-step fault lemmas from arbitrary decoder state + llsym symbolic fault scripts over io::Read',
  'C12': 'Kani/CBMC differential unit harnesses',
  'C13': 'llsym (z3) path exploration',
  'C14': 'Kani/CBMC boundary-state lemmas + llsym concatenation',
